@@ -149,3 +149,15 @@ def regex_witnesses():
         except ValueError:
             pass
     return ws
+
+
+def all_headers():
+    """The 40 '<Difficulty><Instrument>' section names, read from the package's enums."""
+    import chartparse.instrument as I
+    return [d.value + i.value for i in I.Instrument for d in I.Difficulty]
+
+
+def pick_header(rng, p_default=0.5):
+    """'ExpertSingle' or, with probability 1 - p_default, any of the 40 instrument sections (note decoding must not
+    depend on which instrument the section belongs to)."""
+    return "ExpertSingle" if rng.random() < p_default else rng.choice(all_headers())
